@@ -6,6 +6,7 @@ import (
 	"bufio"
 	"bytes"
 	"context"
+	"crypto/sha1"
 	"encoding/json"
 	"fmt"
 	"os"
@@ -71,6 +72,28 @@ type recorder struct {
 	kinds   map[string]int
 	errs    []string
 	lastPos int
+	// sparse recording (sizes_test.go): of the writes into one header / body
+	// file only the first two and every sparseStride-th are kept as crash points
+	sparse  bool
+	writes  map[string]int
+	skipped int
+	// pool shares the bytes of identical large files between the snapshots of
+	// one epoch (a header of megabytes is in dozens of them)
+	pool map[[sha1.Size]byte][]byte
+}
+
+func (r *recorder) intern(s map[string][]byte) {
+	for k, v := range s {
+		if len(v) < 16384 {
+			continue
+		}
+		h := sha1.Sum(v)
+		if w, ok := r.pool[h]; ok {
+			s[k] = w
+		} else {
+			r.pool[h] = v
+		}
+	}
 }
 
 var theRec = &recorder{}
@@ -119,6 +142,35 @@ func (r *recorder) Op(op osshim.Op) {
 	if !en || !strings.HasPrefix(op.Path, dir+string(filepath.Separator)) {
 		return
 	}
+	if fk := fileKind(op.Path); (op.Kind == "write" || op.Kind == "writeat") && (fk == "header" || fk == "body") {
+		r.mu.Lock()
+		skip := false
+		if r.enabled && r.dir == dir && r.sparse && r.writes != nil {
+			n := r.writes[op.Path]
+			if op.Phase == "before" {
+				n++
+				r.writes[op.Path] = n
+			}
+			skip = n > 2 && n%sparseStride != 0
+			if skip {
+				// Not a crash point of this run. The log position is still
+				// tracked: the next kept crash state holds only from THIS call
+				// on, so it must not be paired with earlier log prefixes.
+				if op.Phase == "before" {
+					r.ops++
+					r.skipped++
+					if r.kinds != nil {
+						r.kinds[op.Kind+":"+fk]++
+					}
+				}
+				r.lastPos = lg.Len()
+			}
+		}
+		r.mu.Unlock()
+		if skip {
+			return
+		}
+	}
 	plain, err1 := osshim.Snapshot(dir)
 	drop, err2 := osshim.SnapshotDropUnsynced(dir)
 	// let goroutines that are not blocked on the file system run on, so that
@@ -141,6 +193,8 @@ func (r *recorder) Op(op osshim.Op) {
 		r.ops++
 		r.kinds[kind+":"+fileKind(op.Path)]++
 	}
+	r.intern(plain)
+	r.intern(drop)
 	r.points = append(r.points, crashPoint{Index: op.Index, Kind: kind, File: fileKind(op.Path), MsgID: fileMsgID(op.Path), Phase: op.Phase, Variant: "plain", Snap: plain, PosLo: r.lastPos, Pos: pos})
 	if !sameSnap(plain, drop) {
 		r.points = append(r.points, crashPoint{Index: op.Index, Kind: kind, File: fileKind(op.Path), MsgID: fileMsgID(op.Path), Phase: op.Phase, Variant: "drop-unsynced", Snap: drop, PosLo: r.lastPos, Pos: pos})
@@ -148,10 +202,12 @@ func (r *recorder) Op(op osshim.Op) {
 	r.lastPos = pos
 }
 
-func (r *recorder) begin(dir string, lg *mx.Log) {
+func (r *recorder) begin(dir string, lg *mx.Log, sparse bool) {
 	r.mu.Lock()
 	r.enabled, r.dir, r.lg = true, dir, lg
 	r.points, r.ops, r.kinds, r.errs, r.lastPos = nil, 0, map[string]int{}, nil, 0
+	r.sparse, r.writes, r.skipped = sparse, map[string]int{}, 0
+	r.pool = map[[sha1.Size]byte][]byte{}
 	r.mu.Unlock()
 	osshim.SetRecorder(r)
 }
@@ -162,8 +218,14 @@ func (r *recorder) end() (points []crashPoint, ops int, kinds map[string]int, er
 	defer r.mu.Unlock()
 	r.enabled = false
 	points, ops, kinds, errs, lastPos = r.points, r.ops, r.kinds, r.errs, r.lastPos
-	r.points, r.kinds = nil, nil
+	r.points, r.kinds, r.writes, r.pool = nil, nil, nil, nil
 	return
+}
+
+func (r *recorder) skippedWrites() int {
+	r.mu.Lock()
+	defer r.mu.Unlock()
+	return r.skipped
 }
 
 // ---------- log capture ----------
@@ -225,6 +287,18 @@ type epoch struct {
 	Why        string // why not quiesced / harness problems
 	Closed     bool
 	Expected   []string // recovery: ids the spool scan must turn into attempts
+	// Dispatched[id]: how often the queue's dispatcher announced a delivery
+	// goroutine for id; Starts[id]: how often the downstream's Start was called
+	// for id. Read after Close returned (no delivery goroutine is left).
+	Dispatched map[string]int
+	Starts     map[string]int
+	// Scheduled[id]: the start-up scan of a recovery queue announced that it
+	// put id on the time wheel
+	Scheduled map[string]int
+	// Abandoned: the wait ended because every message still in the spool had
+	// been dispatched more often than it was attempted (see allAbandoned).
+	Abandoned     bool
+	SkippedWrites int
 }
 
 type attemptCounter struct {
@@ -245,6 +319,16 @@ func (a *attemptCounter) get(id string) int {
 	return a.n[id]
 }
 
+func (a *attemptCounter) snapshot() map[string]int {
+	a.mu.Lock()
+	defer a.mu.Unlock()
+	out := make(map[string]int, len(a.n))
+	for k, v := range a.n {
+		out[k] = v
+	}
+	return out
+}
+
 // baseID strips the "-<hex unix time>" suffix the queue appends per attempt.
 func baseID(id string) string {
 	if i := strings.LastIndexByte(id, '-'); i > 0 {
@@ -259,6 +343,17 @@ type env struct {
 	bounce *mx.ScriptTarget
 	att    *attemptCounter
 	qlog   *lineBuf
+	// disp: "starting delivery for <id>" lines of the queue's debug log (the
+	// dispatcher spawned a delivery goroutine for id); starts: Start calls the
+	// downstream received per message
+	disp   *attemptCounter
+	starts *attemptCounter
+	// sched: "will try to deliver (msg ID = <id>)" lines: the start-up scan put
+	// the stored message id on the time wheel (the scan is synchronous: when
+	// the constructor returned, a stored message without such a line was skipped)
+	sched *attemptCounter
+	// scanned: this queue was started on a non-empty spool (recovery run)
+	scanned bool
 	// sentinel barrier (recording run only, see drainPermits)
 	arrived chan struct{}
 	release chan struct{}
@@ -270,12 +365,15 @@ const (
 )
 
 func newEnv(partial bool) *env {
-	e := &env{lg: mx.NewLog(), att: &attemptCounter{n: map[string]int{}}, qlog: &lineBuf{}}
+	e := &env{lg: mx.NewLog(), att: &attemptCounter{n: map[string]int{}}, qlog: &lineBuf{}, disp: &attemptCounter{n: map[string]int{}}, starts: &attemptCounter{n: map[string]int{}}, sched: &attemptCounter{n: map[string]int{}}}
 	e.down = mx.NewTarget("down", e.lg)
 	e.down.Partial = partial
 	e.arrived = make(chan struct{}, 16)
 	e.release = make(chan struct{})
 	e.down.Hook = func(pt mx.Point) {
+		if pt.Stage == mx.StStart {
+			e.starts.inc(baseID(pt.MsgID))
+		}
 		if pt.Stage == mx.StStart && strings.HasPrefix(pt.MsgID, sentinelPrefix) {
 			e.arrived <- struct{}{}
 			<-e.release
@@ -291,7 +389,23 @@ func (e *env) newQueue(dir string, maxTries, parallelism int) (q *queue.Queue, p
 			panicked = fmt.Sprint(v)
 		}
 	}()
-	lgr := log.Logger{Name: "queue", Out: log.FuncOutput(func(_ time.Time, _ bool, msg string) { e.qlog.add(msg) }, func() error { return nil })}
+	const dispatchLine = "starting delivery for "
+	const scheduleLine = "will try to deliver (msg ID = "
+	lgr := log.Logger{Name: "queue", Debug: true, Out: log.FuncOutput(func(_ time.Time, debug bool, msg string) {
+		if debug {
+			// only the dispatcher's announcement is of interest (see allAbandoned)
+			if i := strings.Index(msg, dispatchLine); i >= 0 {
+				e.disp.inc(strings.TrimSpace(msg[i+len(dispatchLine):]))
+			} else if i := strings.Index(msg, scheduleLine); i >= 0 {
+				rest := msg[i+len(scheduleLine):]
+				if j := strings.IndexByte(rest, ')'); j >= 0 {
+					e.sched.inc(rest[:j])
+				}
+			}
+			return
+		}
+		e.qlog.add(msg)
+	}, func() error { return nil })}
 	q, err = queue.VerifNewQueue(queue.VerifOpts{
 		Dir: dir, Target: e.down, Bounce: e.bounce, MaxTries: maxTries,
 		InitialRetryTime: 0, RetryTimeScale: 1, PostInitDelay: 0, Parallelism: parallelism,
@@ -312,6 +426,63 @@ func closeQueue(q *queue.Queue) bool {
 	case <-time.After(watchdogClose):
 		return false
 	}
+}
+
+// graceAbandoned: how long "every message left in the spool was dispatched
+// more often than attempted" must hold before the harness stops waiting. It
+// only ends a wait (like the watchdogs); the verdict is taken on the counters
+// read after Queue.Close returned.
+const graceAbandoned = 5 * time.Second
+
+// allAbandoned: every message still in the spool has been handed to a
+// delivery goroutine by the dispatcher more often than the downstream saw a
+// Start for it. In a healthy queue this state lasts only from the dispatch to
+// the Start call (waiting for the delivery permit, reading the message back);
+// a message whose retry is merely scheduled has equal counts.
+func (e *env) allAbandoned(left []string) bool {
+	for _, id := range left {
+		if e.scanned && e.sched.get(id) == 0 && e.starts.get(id) == 0 {
+			continue // the start-up scan skipped it
+		}
+		if e.disp.get(id) <= e.starts.get(id) {
+			return false
+		}
+	}
+	return len(left) > 0
+}
+
+// abandonWait is the wait-loop state for allAbandoned.
+type abandonWait struct{ since time.Time }
+
+func (w *abandonWait) expired(e *env, left []string) bool {
+	if e.allSkippedByScan(left) {
+		// final at once: the scan ended before the constructor returned, and
+		// only the scan schedules stored messages
+		return true
+	}
+	if !e.allAbandoned(left) {
+		w.since = time.Time{}
+		return false
+	}
+	if w.since.IsZero() {
+		w.since = time.Now()
+		return false
+	}
+	return time.Since(w.since) > graceAbandoned
+}
+
+// allSkippedByScan: none of the messages still in the spool was put on the
+// time wheel by the (synchronous) start-up scan of this recovery queue.
+func (e *env) allSkippedByScan(left []string) bool {
+	if !e.scanned || len(left) == 0 {
+		return false
+	}
+	for _, id := range left {
+		if e.sched.get(id) != 0 || e.starts.get(id) != 0 || e.disp.get(id) != 0 {
+			return false
+		}
+	}
+	return true
 }
 
 func metasPresent(dir string, ids []string) []string {
@@ -443,7 +614,7 @@ func runRecording(sc *scenario, tmp string) *epoch {
 		return mx.MakeErr(cls, a+len(pt.Rcpt), "c02")
 	}
 
-	theRec.begin(dir, e.lg)
+	theRec.begin(dir, e.lg, sc.Sparse)
 	q, pan, err := e.newQueue(dir, sc.MaxTries, recordingParallelism)
 	if pan != "" || err != nil {
 		theRec.end()
@@ -460,7 +631,9 @@ func runRecording(sc *scenario, tmp string) *epoch {
 			}
 		}
 		e.lg.Add(mx.Event{Kind: "h.start", MsgID: m.ID})
-		d, err := q.Start(ctx, &module.MsgMetadata{ID: m.ID, OriginalFrom: m.From}, m.From)
+		md := &module.MsgMetadata{ID: m.ID, OriginalFrom: m.From}
+		md.SMTPOpts.UTF8 = m.UTF8
+		d, err := q.Start(ctx, md, m.From)
 		if err != nil {
 			ep.Why = "queue refused Start: " + err.Error()
 			break
@@ -510,9 +683,18 @@ func runRecording(sc *scenario, tmp string) *epoch {
 		}
 	}
 	deadline := time.Now().Add(watchdogRecording)
+	var aw abandonWait
 	for {
-		if len(metasPresent(dir, ackedIDs)) == 0 {
+		left := metasPresent(dir, ackedIDs)
+		if len(left) == 0 {
 			ep.Quiesced = true
+			break
+		}
+		if aw.expired(e, left) {
+			// The queue gave up on these messages without an attempt. Nothing is
+			// judged here (no stop happened); the crash states of this run are
+			// explored as usual and their recoveries are judged.
+			ep.Quiesced, ep.Abandoned = true, true
 			break
 		}
 		if time.Now().After(deadline) {
@@ -525,6 +707,7 @@ func runRecording(sc *scenario, tmp string) *epoch {
 	}
 	var errs []string
 	var lastPos int
+	ep.SkippedWrites = theRec.skippedWrites()
 	ep.Points, ep.Ops, ep.OpKinds, errs, lastPos = theRec.end()
 	if len(errs) > 0 {
 		ep.Quiesced = false
@@ -546,6 +729,7 @@ func runRecording(sc *scenario, tmp string) *epoch {
 	}
 	ep.Panics = panicLines.Load() - p0
 	ep.QLog = e.qlog.get()
+	ep.Dispatched, ep.Starts = e.disp.snapshot(), e.starts.snapshot()
 	return ep
 }
 
@@ -598,6 +782,7 @@ func runRecovery(sc *scenario, tmp string, n int, snap map[string][]byte, record
 	defer os.RemoveAll(dir)
 	ep.Expected = loadable(snap)
 	e := newEnv(sc.Partial)
+	e.scanned = true
 	globalLogMu.Lock()
 	globalLogBuf = e.qlog
 	globalLogMu.Unlock()
@@ -624,7 +809,7 @@ func runRecovery(sc *scenario, tmp string, n int, snap map[string][]byte, record
 		}
 	}
 	if record {
-		theRec.begin(dir, e.lg)
+		theRec.begin(dir, e.lg, sc.Sparse)
 	}
 	// Parallelism 1 makes "metadata of every expected message is gone" a
 	// LOGICAL quiescence condition: a delivery goroutine holds the only permit
@@ -647,10 +832,15 @@ func runRecovery(sc *scenario, tmp string, n int, snap map[string][]byte, record
 		return ep
 	}
 	deadline := time.Now().Add(watchdogRecovery)
+	var aw abandonWait
 	for {
 		left := metasPresent(dir, ep.Expected)
 		if len(left) == 0 {
 			ep.Quiesced = true
+			break
+		}
+		if aw.expired(e, left) {
+			ep.Quiesced, ep.Abandoned = true, true
 			break
 		}
 		if time.Now().After(deadline) {
@@ -681,5 +871,8 @@ func runRecovery(sc *scenario, tmp string, n int, snap map[string][]byte, record
 	}
 	ep.Panics = panicLines.Load() - p0
 	ep.QLog = e.qlog.get()
+	if ep.Closed {
+		ep.Dispatched, ep.Starts, ep.Scheduled = e.disp.snapshot(), e.starts.snapshot(), e.sched.snapshot()
+	}
 	return ep
 }
